@@ -21,6 +21,8 @@ pub enum Item {
 	Err(usize),
 	Foreign,
 	NonNumeric,
+	/// an id just below the batch's first id (only meaningful on a used client)
+	Lower,
 }
 
 fn alphabet(n: usize) -> Vec<Item> {
@@ -51,6 +53,7 @@ fn reply_text(items: &[Item], n: usize, start: u64, kind: IdKind) -> String {
 			Item::Err(j) => format!(r#"{{"jsonrpc":"2.0","id":{},"error":{{"code":{},"message":"e{j}"}}}}"#, idtxt(kind, start + *j as u64), 500 + j),
 			Item::Foreign => format!(r#"{{"jsonrpc":"2.0","id":{},"result":"foreign"}}"#, idtxt(kind, start + n as u64 + 5)),
 			Item::NonNumeric => r#"{"jsonrpc":"2.0","id":"x","result":"nn"}"#.to_string(),
+			Item::Lower => format!(r#"{{"jsonrpc":"2.0","id":{},"result":"lower"}}"#, idtxt(kind, start.saturating_sub(1))),
 		})
 		.collect();
 	format!("[{}]", parts.join(","))
@@ -61,7 +64,7 @@ fn judge_batch(items: &[Item], n: usize, outcome: &Result<String, String>) -> Re
 	let exact = items.len() == n && (0..n).all(|j| items.iter().filter(|it| matches!(it, Item::Ok(x) | Item::Err(x) if *x == j)).count() == 1);
 	let feature = if exact {
 		"permutation"
-	} else if items.iter().any(|i| *i == Item::Foreign) {
+	} else if items.iter().any(|i| *i == Item::Foreign || *i == Item::Lower) {
 		"foreign-id"
 	} else if items.iter().any(|i| *i == Item::NonNumeric) {
 		"non-numeric-id"
@@ -124,6 +127,8 @@ struct WsBatch {
 	n: usize,
 	kind: IdKind,
 	reply: String,
+	/// a call is made (and answered) first, so that the batch does not start at id 0
+	used_client: bool,
 }
 
 fn mask_none(l: &str) -> bool {
@@ -133,7 +138,7 @@ fn mask_none(l: &str) -> bool {
 impl Scenario for WsBatch {
 	type State = CliState;
 	fn name(&self) -> String {
-		format!("cli_mem/batch-reply:{}:{:?}:{}", self.n, self.kind, self.reply)
+		format!("cli_mem/batch-reply:{}:{:?}:{}:{}", self.n, self.kind, self.used_client, self.reply)
 	}
 	fn config(&self) -> Value {
 		json!({"n": self.n, "id_kind": format!("{:?}", self.kind), "reply": self.reply})
@@ -142,19 +147,20 @@ impl Scenario for WsBatch {
 		mask_none
 	}
 	fn setup(&self) -> CliState {
-		clim::setup(&CliScenarioCfg {
-			id_kind: self.kind,
-			ops: vec![FeOp::Batch(self.n)],
-			env: vec![EnvEvent::Raw { after: 1, text: self.reply.clone() }],
-			fail_send_at: None,
-			tx_points: false,
-			buffer_cap: 4,
-			late_after: 0,
-		})
+		let (ops, env, late_after) = if self.used_client {
+			(
+				vec![FeOp::Call, FeOp::LateBatch(self.n)],
+				vec![EnvEvent::Answer { msg: 0, kind: clim::AnswerKind::Ok }, EnvEvent::Raw { after: 2, text: self.reply.clone() }],
+				1,
+			)
+		} else {
+			(vec![FeOp::Batch(self.n)], vec![EnvEvent::Raw { after: 1, text: self.reply.clone() }], 0)
+		};
+		clim::setup(&CliScenarioCfg { id_kind: self.kind, ops, env, fail_send_at: None, tx_points: false, buffer_cap: 4, late_after })
 	}
 	fn judge(&self, st: CliState, _t: &[String], panics: &[String], _s: Status) -> Verdict {
 		let l = st.log.lock().unwrap();
-		let outcome = match &l.status[0] {
+		let outcome = match l.status.last().unwrap() {
 			OpStatus::Ok(s) => format!("OK {s}"),
 			OpStatus::Err(e) => format!("ERR {e}"),
 			other => format!("{other:?}"),
@@ -189,7 +195,14 @@ impl tower::Service<HttpRequest> for ScriptSvc {
 		Box::pin(async move {
 			let body = req.into_body().collect().await.map(|b| b.to_bytes()).unwrap_or_default();
 			seen.lock().unwrap().push(String::from_utf8_lossy(&body).to_string());
-			let txt = reply.lock().unwrap().clone();
+			let body_s = String::from_utf8_lossy(&body).to_string();
+			// a single call (warm-up) is answered with its own id; the batch gets the scripted reply
+			let txt = if body_s.trim_start().starts_with('{') {
+				let v: Value = serde_json::from_str(&body_s).unwrap_or(Value::Null);
+				json!({"jsonrpc":"2.0","id": v["id"], "result":"warm"}).to_string()
+			} else {
+				reply.lock().unwrap().clone()
+			};
 			Ok(http::Response::builder().status(200).header("content-type", "application/json").body(Full::new(Bytes::from(txt))).unwrap())
 		})
 	}
@@ -217,7 +230,7 @@ impl HttpHarness {
 		HttpHarness { rt, svc, kind }
 	}
 	/// a fresh client per case so that the batch starts at id 0
-	fn batch(&self, n: usize, reply: &str) -> (Result<String, String>, Vec<String>) {
+	fn batch(&self, n: usize, reply: &str, used_client: bool) -> (Result<String, String>, Vec<String>) {
 		*self.svc.reply.lock().unwrap() = reply.to_string();
 		self.svc.seen.lock().unwrap().clear();
 		let _e = self.rt.enter();
@@ -227,6 +240,9 @@ impl HttpHarness {
 			.build("http://localhost:1")
 			.expect("http client builds");
 		let res = self.rt.block_on(async {
+			if used_client {
+				let _: Value = client.request("warm", rpc_params![]).await.expect("warm-up call");
+			}
 			let mut b = BatchRequestBuilder::new();
 			for j in 0..n {
 				b.insert("bm0", rpc_params![j as u64]).unwrap();
@@ -295,44 +311,53 @@ pub fn check(rep: &Reporter) {
 	let thorough = rep.tier.thorough();
 	let nmax = if thorough { 4 } else { 3 };
 	rep.set_rule(&format!(
-		"batch size n = 1..{nmax}; server reply = every sequence of length 0..n+1 over {{ok answer for entry j, error answer for entry j (j<n), answer with an id outside the batch, answer with a non-numeric id}} (all permutations, subsets, duplications); × id kind {{number, string}} × client {{async client over CLI-MEM, HTTP client over a scripted tower layer}}; plus SCHED: 2 batches and a call in flight with reversed reply arrays under every delivery order. Oracle: positional reference (entry i may only hold an answer delivered for id start+i, or the error placeholder; exact permutations must succeed exactly; success/failure counts and into_ok() agree with the entries)."
+		"batch size n = 1..{nmax}; server reply = every sequence of length 0..n+1 over {{ok answer for entry j, error answer for entry j (j<n), answer with an id outside the batch, answer with a non-numeric id}} (all permutations, subsets, duplications); × id kind {{number, string}} × {{fresh client (first id 0), used client (first id 1, plus an answer whose id lies just below the batch)}} × client {{async client over CLI-MEM, HTTP client over a scripted tower layer}}; plus SCHED: 2 batches and a call in flight with reversed reply arrays under every delivery order. Oracle: positional reference (entry i may only hold an answer delivered for id start+i, or the error placeholder; exact permutations must succeed exactly; success/failure counts and into_ok() agree with the entries)."
 	));
 	rep.assume("each case uses a fresh client so the batch ids start at 0");
 	sched::install_hooks();
 	for n in 1..=nmax {
-		let alpha = alphabet(n);
-		let total = seq_count(alpha.len(), n + 1);
-		for kind in [IdKind::Number, IdKind::String] {
-			par_for(rep, total, 64, || HttpHarness::new(kind), |i, http, local: &mut Local| {
-				let items: Vec<Item> = seq_decode(i, alpha.len(), n + 1).into_iter().map(|k| alpha[k]).collect();
-				let reply = reply_text(&items, n, 0, kind);
-				// async client
-				let ex = sched::run_one(&WsBatch { n, kind, reply: reply.clone() }, &[], false);
-				let ws_out: Result<String, String> = if let Some(s) = ex.obs.outcome.strip_prefix("OK ") {
-					Ok(s.to_string())
-				} else if let Some(e) = ex.obs.outcome.strip_prefix("ERR ") {
-					Err(e.to_string())
-				} else {
-					rep.violation("async:pending-after-reply", &format!("batch of {n}: after the reply {reply} the batch future is {}", ex.obs.outcome), json!({"engine":"ENUM","client":"async","n": n, "reply": reply}));
-					Err("pending".into())
-				};
-				for (sig, what) in &ex.obs.violations {
-					rep.violation(&format!("async:{sig}"), what, json!({"client":"async","reply": reply}));
-				}
-				let http_out = http.batch(n, &reply).0;
-				for (cname, out) in [("async", &ws_out), ("http", &http_out)] {
-					match judge_batch(&items, n, out) {
-						Ok(class) => local.case_unique(&format!("{cname}:{class}")),
-						Err((sig, what)) => {
-							local.case_unique(&format!("{cname}:violation"));
-							rep.violation(&format!("{cname}:{sig}"), &format!("{cname} client, batch of {n} ({kind:?} ids), reply {reply}: {what}"), json!({"engine":"ENUM","client": cname, "n": n, "id_kind": format!("{kind:?}"), "reply": reply, "outcome": format!("{out:?}")}));
+		for used in [false, true] {
+			if used && n > if thorough { 3 } else { 2 } {
+				continue;
+			}
+			let mut alpha = alphabet(n);
+			if used {
+				alpha.push(Item::Lower);
+			}
+			let start: u64 = if used { 1 } else { 0 };
+			let total = seq_count(alpha.len(), n + 1);
+			for kind in [IdKind::Number, IdKind::String] {
+				par_for(rep, total, 64, || HttpHarness::new(kind), |i, http, local: &mut Local| {
+					let items: Vec<Item> = seq_decode(i, alpha.len(), n + 1).into_iter().map(|k| alpha[k]).collect();
+					let reply = reply_text(&items, n, start, kind);
+					// async client
+					let ex = sched::run_one(&WsBatch { n, kind, reply: reply.clone(), used_client: used }, &[], false);
+					let ws_out: Result<String, String> = if let Some(s) = ex.obs.outcome.strip_prefix("OK ") {
+						Ok(s.to_string())
+					} else if let Some(e) = ex.obs.outcome.strip_prefix("ERR ") {
+						Err(e.to_string())
+					} else {
+						rep.violation("async:pending-after-reply", &format!("batch of {n}: after the reply {reply} the batch future is {}", ex.obs.outcome), json!({"engine":"ENUM","client":"async","n": n, "reply": reply}));
+						Err("pending".into())
+					};
+					for (sig, what) in &ex.obs.violations {
+						rep.violation(&format!("async:{sig}"), what, json!({"client":"async","reply": reply}));
+					}
+					let http_out = http.batch(n, &reply, used).0;
+					for (cname, out) in [("async", &ws_out), ("http", &http_out)] {
+						match judge_batch(&items, n, out) {
+							Ok(class) => local.case_unique(&format!("{cname}:{class}")),
+							Err((sig, what)) => {
+								local.case_unique(&format!("{cname}:violation"));
+								rep.violation(&format!("{cname}:{sig}"), &format!("{cname} client, batch of {n} ({kind:?} ids, first id {start}), reply {reply}: {what}"), json!({"engine":"ENUM","client": cname, "n": n, "id_kind": format!("{kind:?}"), "first_id": start, "reply": reply, "outcome": format!("{out:?}")}));
+							}
 						}
 					}
-				}
-				if i == 777 {
-					rep.sample(json!({"n": n, "reply": reply, "async": format!("{ws_out:?}"), "http": format!("{http_out:?}")}));
-				}
-			});
+					if i == 777 {
+						rep.sample(json!({"n": n, "first_id": start, "reply": reply, "async": format!("{ws_out:?}"), "http": format!("{http_out:?}")}));
+					}
+				});
+			}
 		}
 	}
 	// SCHED leg
